@@ -8,8 +8,8 @@ Responses (C04): a TLC state carries (pv, header flags, opcode, body bytes, expe
 `decode_case` calls the real ProtocolHandler.decode_message and `project_response` turns the decoded
 message (and, for errors, to_exception()) into the same abstract form.
 
-Text travels as UTF-8 byte tuples in the specification; optional fields as () / (x,); [bytes] values as
-("v", bytes) / ("null", ()) / ("unset", ()).
+States are read from the TLC dump as JSON-like data (records -> dict, sequences and sets -> list).  Text travels as
+lists of UTF-8 bytes; optional fields as [] / [x]; [bytes] values as ["v", bytes] / ["null", []] / ["unset", []].
 """
 import json
 import os
